@@ -460,6 +460,9 @@ def write_evidence(ev):
     jsonschema.validate(ev, schema)
     # VERIF_EVIDENCE_DIR: runs against a modified copy of the repository (tools/seeded.py) must not overwrite the evidence of /repo
     evdir = os.environ.get("VERIF_EVIDENCE_DIR") or os.path.join(VERIF, "evidence")
+    if not (ev["property_id"].startswith("C") and ev["property_id"][1:].isdigit()):
+        # specification growth beyond the listed properties (./check EXT): its own directory, never mixed with the properties' evidence
+        evdir = os.environ.get("VERIF_EVIDENCE_DIR") or os.path.join(VERIF, "evidence_ext")
     os.makedirs(evdir, exist_ok=True)
     with open(os.path.join(evdir, ev["property_id"] + ".json"), "w") as f:
         json.dump(ev, f, indent=1, sort_keys=True)
